@@ -13,6 +13,8 @@ CORPUS = [
     "let a = { 'n b };\nlet b = { 'm [a] };\nres /m on get -> <a> :: <status=404, b>;\n",
     "let u = /x/{ 'id num }?{ 'next u };\nres u on get -> <>;\n",
     "let p = 'self q;\nlet q = { p };\nres /pq on get -> <q>;\n",
+    "let node = { 'labels rec x [x], 'owner owner };\nlet owner = { 'name str, 'nodes [node] };\nres /nodes on get -> <node>;\n",
+    "let f x = { 'l rec y [y], 'n (g x) };\nlet g x = f x;\nres / on get -> <f str>;\n",
 ]
 
 
@@ -37,11 +39,18 @@ def gen_cyclic(rng):
         def schema_use(j):
             # a content cannot sit in schema position: wrap nothing, the checker will reject; keep it well kinded
             return "num" if kinds[j] == "C" else use(j)
+        # a local recursion (rec) before, between or after the mentions: no edge of the declaration graph
+        recs = rng.random() < 0.3
+
+        def with_rec(ps):
+            if recs:
+                ps.insert(rng.randint(0, len(ps)), "'r%d rec y%d [y%d]" % (i, i, i))
+            return ", ".join(ps)
         if kinds[i] == "S":
-            props = ", ".join("'p%d [%s]" % (t, schema_use(j)) for t, j in enumerate(tg)) or "'z num"
+            props = with_rec(["'p%d [%s]" % (t, schema_use(j)) for t, j in enumerate(tg)]) or "'z num"
             lines.append("let %s = { %s };" % (names[i], props))
         elif kinds[i] == "F":
-            props = ", ".join("'p%d %s" % (t, schema_use(j)) for t, j in enumerate(tg))
+            props = with_rec(["'p%d %s" % (t, schema_use(j)) for t, j in enumerate(tg)])
             lines.append("let %s x = { 'x x%s };" % (names[i], (", " + props) if props else ""))
         elif kinds[i] == "A":
             if tg and kinds[tg[0]] != "C":
